@@ -197,6 +197,14 @@ func (g *gen) nestedCreate() Action {
 	a := Action{Op: op, Value: g.wei(), Init: child, Salt: uint64(g.rng.Intn(3))}
 	if g.rng.Intn(3) == 0 {
 		a.ThenCall = g.wei()
+		// give the child a runtime so that the follow-up call runs code (a contract
+		// left with EMPTY code makes AccountDB.Commit fail once its code is looked
+		// up: code hash keccak("") is not the account package's empty hash; that
+		// defect is outside C06 and only sampled rarely)
+		if g.rng.Intn(40) != 0 {
+			rt := []Action{g.callAction(true), {Op: "stop"}}
+			a.Init[len(a.Init)-1] = Action{Op: "return", Runtime: rt}
+		}
 	}
 	return a
 }
@@ -294,6 +302,9 @@ func (g *gen) callValue() *TxSpec {
 	if g.rng.Intn(3) == 0 {
 		s.To = g.pick([]string{"c:RelayOK", "c:RelayRevert", "c:RelayOOG", "c:RelayCC", "c:RelayDC"})
 		s.Data = []string{g.target(false)}
+		if s.To == "c:RelayCC" { // CALLCODE: keep code that self-destructs to its caller out (see callAction)
+			s.Data = []string{g.pick([]string{"c:Sink", "c:Reverter", "eoa:2", "fresh:1", "pre:3"})}
+		}
 		s.Template = "call-relay"
 	}
 	return s
@@ -326,11 +337,11 @@ func (g *gen) destroy() *TxSpec {
 	case 6:
 		return mk("sd-self:initcode", []Action{{Op: "selfdestruct", To: "self"}}, []DestroySpec{{"created", []string{bigDec(weiStr(v * 3)).String()}}})
 	case 7:
-		return &TxSpec{Kind: "call", Via: via, Src: src, To: "c:SDArg", Value: vt, Data: []string{"c:SDArg"}, Template: "sd-self:arg", Destroy: []DestroySpec{{"c:SDArg", []string{vw}}}}
+		return &TxSpec{Kind: "call", Via: via, Src: src, To: "c:SDArgD", Value: vt, Data: []string{"c:SDArgD"}, Template: "sd-self:arg", Destroy: []DestroySpec{{"c:SDArgD", []string{vw}}}}
 	case 8:
 		return mk("sd-self:delegate", []Action{{Op: "delegatecall", To: "c:SDSelf0"}, {Op: "stop"}}, []DestroySpec{{"created", []string{bigDec(weiStr(v * 3)).String()}}})
 	case 9:
-		return &TxSpec{Kind: "call", Via: via, Src: src, To: "c:RelayCC", Value: vt, Data: []string{"c:SDSelf0"}, Template: "sd-self:callcode-relay", Destroy: []DestroySpec{{"c:RelayCC", []string{vw}}}}
+		return &TxSpec{Kind: "call", Via: via, Src: src, To: "c:RelayCCD", Value: vt, Data: []string{"c:SDSelf0"}, Template: "sd-self:callcode-relay", Destroy: []DestroySpec{{"c:RelayCCD", []string{vw}}}}
 	default:
 		return mk("sd-self:nested-create", []Action{{Op: "create", Value: vw, Init: []Action{{Op: "selfdestruct", To: "self"}}}, {Op: "stop"}}, []DestroySpec{{"child0", []string{vw}}})
 	}
@@ -338,6 +349,9 @@ func (g *gen) destroy() *TxSpec {
 
 func (g *gen) miner() *TxSpec {
 	id := g.rng.Intn(6)
+	if g.rng.Intn(3) == 0 {
+		id = g.rng.Intn(3) // the fixture miners
+	}
 	switch g.rng.Intn(7) {
 	case 0, 1:
 		ms := &MinerSpec{Id: id, Type: byte(g.rng.Intn(2)), Stake: g.pick64([]uint64{0, 399, 400, 401, 1999, 2000, 2500, 5000, 1000000000000, 999999000})}
@@ -354,6 +368,9 @@ func (g *gen) miner() *TxSpec {
 	case 2, 3:
 		return &TxSpec{Kind: "miner-add", Src: g.pick([]string{"rich:2", "rich:3", "eoa:4", "eoa:0"}), Miner: &MinerSpec{Id: id, Stake: g.pick64([]uint64{0, 1, 50, 400, 3000, 1000000000000})}}
 	case 4, 5:
+		if g.rng.Intn(2) == 0 { // the fixture miner owned by rich:3 (stake 800)
+			return &TxSpec{Kind: "miner-refund", Src: "rich:3", Miner: &MinerSpec{Id: 2, Refund: g.pick([]string{"1", "100", "399", "400", "401", "800", "18446744073709551615"})}}
+		}
 		return &TxSpec{Kind: "miner-refund", Src: g.pick([]string{"rich:3", "rich:3", "rich:2", "eoa:4", "eoa:5", "key:2"}),
 			Miner: &MinerSpec{Id: id, Refund: g.pick([]string{"1", "100", "400", "401", "800", "2000", "5000", "18446744073709551615", "0", "-1", "1.5", ""})}}
 	default:
